@@ -57,6 +57,37 @@ def _default_signal_dispositions():
             pass
 
 
+def _arm_watchdog(prop, tier, seed):
+    """A check that does not finish is no use to anybody.  After a generous wall-clock limit (quick 25 min, thorough 90 min,
+    `VERIF_WALL_LIMIT` seconds overrides) the run is ended from a timer thread: on a tree whose source differs from the frozen one
+    this is reported as a broken correspondence (the check's bounded waits did not cover what the code now does), otherwise as
+    a failure of the tool (exit 2)."""
+    import threading
+
+    limit = float(os.environ.get("VERIF_WALL_LIMIT", "0") or 0) or (5400.0 if tier == "thorough" else 1500.0)
+
+    def fire():
+        try:
+            from harness import fingerprint
+            changed = fingerprint.changed()
+        except Exception:  # noqa: BLE001
+            changed = []
+        try:
+            if changed:
+                path = common.write_replay(prop, "correspondence-broken", dict(
+                    seed=seed, tier=tier, undischarged=[], search_evaluations=0,
+                    mismatches=[dict(op="harness-run", impl="the check did not finish within %.0f s on code that differs from the frozen tree (%s)"
+                                     % (limit, ", ".join(changed[:6])), model="finishes on the tree the check was frozen on")]))
+                print(f"VIOLATION property={prop} replay={path} no-failing-input-found", flush=True)
+                os._exit(1)
+            print("TOOL FAILURE: the check did not finish within %.0f s" % limit, file=sys.stderr, flush=True)
+        finally:
+            os._exit(2)
+    t = threading.Timer(limit, fire)
+    t.daemon = True
+    t.start()
+
+
 def main(argv=None):
     _default_signal_dispositions()
     ap = argparse.ArgumentParser()
@@ -73,6 +104,7 @@ def main(argv=None):
         ctx = Ctx(prop, args.tier, seed)
         touched = []
         changed_any = []
+        _arm_watchdog(prop, args.tier, seed)
         if not args.replay and args.tier == "quick" and os.environ.get("VERIF_NO_DEEPEN") != "1":
             try:
                 from harness import fingerprint
